@@ -129,6 +129,9 @@ class C18(Spec):
             if q == "-" and not ps:
                 q = "42"
             cases.append("S %s %s %s" % (pv.hexs(txt.encode()), q, " ".join(ps)))
+        # a text that was only stored, then a setter (regression of the first version of fix 0aa5d9d: its parameters were dropped)
+        for w in [b"text/weird;x=1", b"text/html; charset=utf-8", b"anything at all"]:
+            cases.append("R %s 30" % pv.hexs(w))
         for junk in ["", "/", "text", "text/", "/html", "text//html", ";", "text/html;", "text/html; ", "text/html;q", "text/html;q=", "text/html; q= ",
                      "text/html;=", "text/html;a", "text/html;a=", "text/html+", "text/html+;", "*/*", "*", "text/html;q=0.5;q=0.7", "text/html; charset"]:
             cases.append("M " + pv.hexs(junk.encode()))
@@ -148,6 +151,10 @@ class C18(Spec):
         o = impl.split()
         if o[1] == "err-other":
             return "rejected with something other than 415: %s" % case
+        if t[0] == "R":
+            if o[1] != t[1]:
+                return "a stored (unparsed) media type text lost something after setQuality: %r -> %r" % (pv.unhex(t[1]), pv.unhex(o[1]) if o[1] != "-" else b"")
+            return None
         if t[0] == "S":
             if o[1] != "ok":
                 return "a parsed media type whose quality / parameters were then set does not write a text that parses: %s -> %s" % (pv.unhex(t[1]), impl)
@@ -188,7 +195,7 @@ class C18(Spec):
         return None
 
     def nontrivial(self, case, impl):
-        return case[0] == "S" or (case[0] == "B" and (case.split()[3] != "-" or case.split()[4] != "-" or len(case.split()) > 5)) or (b";" in pv.unhex(case.split()[1]) if case[0] == "M" else False)
+        return case[0] in "SR" or (case[0] == "B" and (case.split()[3] != "-" or case.split()[4] != "-" or len(case.split()) > 5)) or (b";" in pv.unhex(case.split()[1]) if case[0] == "M" else False)
 
     def kind(self, case, impl):
         o = impl.split()
